@@ -35,6 +35,7 @@ type c08Case struct {
 	Until   int64   `json:"until"`
 	CopyNaN bool    `json:"copy_nan"`
 	Glob    bool    `json:"glob"`
+	Laps    bool    `json:"source_holds_points_of_a_later_lap,omitempty"`
 }
 
 func init() {
@@ -73,7 +74,11 @@ func c08Eval(c *fw.Ctx, k c08Case) (sig, desc string, nontrivial bool, outcome s
 	if k.Glob {
 		rel = "g/b.wsp"
 	}
-	src := contentByCode(l, k.Now, c08SrcChoices, k.Src)
+	srcCh := c08SrcChoices
+	if k.Laps { // the third choice is a point of a later lap of the ring: the source has NO value there
+		srcCh = []SlotChoice{{Kind: "absent"}, {Kind: "value", V: 1}, {Kind: "newer", V: 9}}
+	}
+	src := contentByCode(l, k.Now, srcCh, k.Src)
 	sf := &BFile{L: l, Rings: src, Base: basePicks(k.Src, len(l.Archs))}
 	sf.Write(filepath.Join(sdir, rel))
 	srcBytes := sf.Bytes()
@@ -493,6 +498,12 @@ func runC08(c *fw.Ctx) {
 							k := c08Case{Layout: tag, Method: uint32(m[0]), XFF: m[1], Now: now, Src: s, Dst: d, DstKind: kind, Archive: arch, From: w[0], Until: w[1], CopyNaN: cn}
 							c08One(c, k, cells)
 						}
+					}
+				}
+				if (si+di)%5 == 0 {
+					// the source holds points of a later lap (a writer whose clock ran ahead): they are not values of this window
+					for _, cn := range []bool{false, true} {
+						c08One(c, c08Case{Layout: tag, Method: 2, Now: now, Src: s, Dst: d, DstKind: kind, Archive: -1, CopyNaN: cn, Laps: true}, cells)
 					}
 				}
 				if (si+di)%11 == 0 && kind == "file" {
